@@ -6,6 +6,6 @@ REGISTRY["C31"] = l0("C31", "c31_list",
            "against a sequence model (stable sorted insertion) + observed final content; T=1: <= 50 ops incl. nolock variants, "
            "add_before/after, nolock_remove, sort, model compared with the real list after every op; <= 48 items, priority "
            "domains of 1-4 values (many ties) at 5 offsets incl. negative and near INT_MAX; conservation",
-    # optional CLI knobs for the two never-generated strict modes documented in the harness header
-    # (C31_KNOBS="conc_sort=1" or "strict_sort=1"); empty by default
+    # concurrent sorts are generated (conc_sort: 40% of the multi-thread list plans; half of those run the real locked parsec_list_sort and are
+    # judged for conservation, link integrity and final order only); C31_KNOBS="strict_sort=1" additionally demands a stable sort (not part of the property)
     knobs_cli=[k for k in __import__("os").environ.get("C31_KNOBS", "").split(",") if k])
